@@ -2,10 +2,10 @@
    Only ExtrOcamlBasic is used: nat, positive, N, Z stay inductive datatypes. *)
 Require Extraction.
 Require Import ExtrOcamlBasic.
-From UP Require Import Base.Chars Base.Regex Base.Atoms Model.Uri Model.Escape Spec.PctSpec Spec.Rfc3986 Spec.ErrPos Spec.Split Spec.Recompose Spec.Resolve Spec.Normal Spec.Findings Model.Ip4 Model.Parse Model.Recompose Model.Common Model.Compare Model.Resolve Model.Shorten Model.Normalize Proofs.Findings10 Model.Mem Model.ParseM Model.OpsM.
+From UP Require Import Base.Chars Base.Regex Base.Atoms Base.SuiteChars Model.Uri Model.Escape Spec.PctSpec Spec.Rfc3986 Spec.ErrPos Spec.Split Spec.Recompose Spec.Resolve Spec.Normal Spec.Findings Model.Ip4 Model.Parse Model.Recompose Model.Common Model.Compare Model.Resolve Model.Shorten Model.Normalize Proofs.Findings10 Model.Mem Model.ParseM Model.OpsM.
 Extraction Language OCaml.
 Extraction "model.ml" escape unescape unescape_inplace escaped_form crlf unescape_spec
-  parse parse_cstr parse_ip4 matchb first_dead URI_reference is_empty deriv nullable crun ptrans pfinish all_atoms atom_rep atom_of errpos_ok split_spec to_text to_string chars_required
+  parse parse_cstr parse_ip4 matchb first_dead URI_reference is_empty deriv nullable crun ptrans pfinish all_atoms atom_rep atom_of suite_chars errpos_ok split_spec to_text to_string chars_required
   equals_uri add_base remove_base normalize mask_required make_owner Common.remove_dot_segments fix_ambiguity
   canon_ip6 resolve_text resolve_corner normal_text five_of_text rel_path_ref Spec.Resolve.remove_dot_segments rds_keep_kind c06_shape c08_shape ref_kind c10_class
   parse_m free_members ms_init trace_of live_count bad_frees erase muri_blocks alloc free_blk
